@@ -3,4 +3,4 @@ From Verif Require Import JinjaScan JinjaRxInst JinjaMini.
 Require Extraction ExtrOcamlBasic.
 Extraction Language OCaml.
 Extraction "model.ml" scan_bundled scan_stock inner_with inner_with_trim root_step31 do_lineprefix subparse_variable subparse_block
-           render_node render_all builtin_filters has_marker render_assert parse_ifuses eval_if py_splitlines render_ifuses_script scan_combo scan_combo_upstream marker_free_combo mini_bundled mini_upstream code_marker marker_m.
+           render_node render_all builtin_filters has_marker render_assert parse_ifuses eval_if py_splitlines render_ifuses_script scan_combo scan_combo_upstream marker_free_combo mini_bundled mini_upstream code_marker marker_m lineprefix_m.
